@@ -16,9 +16,12 @@ class Boom(Exception):
     pass
 
 
-def context_check(initial, depth, fail_at, decorator):
+def context_check(initial, depth, fail_at, style):
     """Nested contexts (depth 1..3), an exception raised at level fail_at (0 = none): inside the flag is True at every
-    level; afterwards it is what it was before."""
+    level; afterwards it is what it was before.  style 0: nested with-blocks; 1: the outermost level is a decorated
+    function around with-blocks; 2: every level is a function decorated with high_compatibility_mode_decorator (a
+    decorated function calling a decorated function - recursion through the decorated name); 3: decorated levels
+    alternate with with-blocks; 4: style 2 run twice in a row (the second run starts from what the first left)."""
     global_config.high_compat_mode = initial
     seen = []
 
@@ -28,42 +31,61 @@ def context_check(initial, depth, fail_at, decorator):
             if k == fail_at:
                 raise Boom()
             if k < depth:
-                level(k + 1)
+                if style == 3:
+                    dlevel(k + 1)
+                else:
+                    level(k + 1)
             seen.append(global_config.high_compat_mode)
 
-    try:
-        if decorator:
-            high_compatibility_mode_decorator(level)(1)
+    def _dlevel(k):
+        seen.append(global_config.high_compat_mode)
+        if k == fail_at:
+            raise Boom()
+        if k < depth:
+            if style == 3:
+                level(k + 1)
+            else:
+                dlevel(k + 1)
+        seen.append(global_config.high_compat_mode)
+
+    dlevel = high_compatibility_mode_decorator(_dlevel)
+
+    for _round in range(2 if style == 4 else 1):
+        try:
+            if style == 1:
+                high_compatibility_mode_decorator(level)(1)
+            elif style >= 2:
+                dlevel(1)
+            else:
+                level(1)
+        except Boom:
+            if fail_at == 0 or fail_at > depth:
+                return 1
         else:
-            level(1)
-    except Boom:
-        if fail_at == 0 or fail_at > depth:
-            return 1
-    else:
-        if 1 <= fail_at <= depth:
-            return 2
-    for v in seen:
-        if v is not True:
-            return 3
-    if global_config.high_compat_mode is not initial:
-        return 4
+            if 1 <= fail_at <= depth:
+                return 2
+        for v in seen:
+            if v is not True:
+                return 3
+        if global_config.high_compat_mode is not initial:
+            return 4
     return 0
 
 
-def ob_context(initial: bool, depth: int, fail_at: int, decorator: bool) -> int:
+def ob_context(initial: bool, depth: int, fail_at: int, style: int) -> int:
     """
-    pre: 1 <= depth <= 3 and 0 <= fail_at <= 3
+    pre: 1 <= depth <= 3 and 0 <= fail_at <= 3 and 0 <= style <= 4
     post: _ == 0
     """
-    return context_check(initial, depth, fail_at, decorator)
+    return context_check(initial, depth, fail_at, style)
 
 
-def reach_context(initial: bool, depth: int, fail_at: int, decorator: bool) -> int:
+def reach_context(initial: bool, depth: int, fail_at: int, style: int) -> int:
     """
-    pre: 1 <= depth <= 3 and 0 <= fail_at <= 3
+    pre: 1 <= depth <= 3 and 0 <= fail_at <= 3 and 0 <= style <= 4
     post: _ != 0
     """
-    return context_check(initial, depth, fail_at, decorator)
+    return context_check(initial, depth, fail_at, style)
 
 
 def _allowed_char(c):
